@@ -15,7 +15,8 @@ PLAN = {"quick": {"cases": 6000, "jobs": 4, "timeout": 600},
 FLOORS = {"quick": {"quantise.survival.armed": 300, "quantise.pairing.armed": 2000, "quantise.nonnotes_kept.armed": 2000,
                     "quantise.displacement.armed": 2000},
           "thorough": {"quantise.survival.armed": 5000, "quantise.pairing.armed": 50000}}
-STEPS = [[24], [12], [6, 8], [3, 4], [12, 8], [24, 12, 6, 16, 8, 4], None, [4], [6, 4], [48, 32], [5, 7]]
+STEPS = [[24], [12], [6, 8], [3, 4], [12, 8], [24, 12, 6, 16, 8, 4], None, [4], [6, 4], [48, 32], [5, 7],
+         [16, 16, 24], [12, 12, 8], [6, 6], [8, 12, 8, 24], [24, 16, 16], [7, 7, 3], [1], [2, 3], [96]]      # "any list": repeated entries are legal
 
 
 def make_case(rng, i, tier):
